@@ -202,6 +202,9 @@ func buildUploads(lib *initLib, sc *scenario) ([]trackRun, []upload, error) {
 			conv := func(tm int64) int64 {
 				g := gcd(int64(t.Ts), int64(sc.Tm))
 				x := tm * (int64(t.Ts) / g) / (int64(sc.Tm) / g)
+				if sc.GenF > 0 { // scripts of the model: the model's own (coarser) ticks, scaled
+					x = (tm / sc.GenF) * (int64(t.Ts) / g) / (int64(sc.Tm) / g) * sc.GenF
+				}
 				if t.Align == "aac" {
 					x = ceilTo(x, 1024)
 				}
@@ -422,6 +425,7 @@ type result struct {
 	tuned    bool
 	shifted  bool
 	fidelity int // 0 not compared, 1 equal, -1 different
+	obs      [][2]int64 // per media upload: stored number and first tfdt (absolute; -1 if nothing readable was stored)
 	fidNote  string
 	err      error
 }
@@ -538,7 +542,7 @@ func (r *runner) run(idx int, sc *scenario) (res result) {
 	}
 	emit(tr.E{"ev": "hdr", "id": sc.ID, "cls": sc.Class, "src": sc.Src, "Tm": tm, "D": sc.D, "G": strconv.FormatInt(sc.G, 10),
 		"NB": strconv.FormatInt(sc.NB, 10), "c": c, "far": c == big, "startNr": sc.StartNr, "tracks": hdrTracks,
-		"creation": crClass, "streams": sc.Streams, "nearZero": sc.G < 1000})
+		"creation": crClass, "streams": sc.Streams, "nearZero": sc.G < 1000, "resendInit": sc.ResendInit > 0})
 	for _, ie := range initEvs {
 		emit(tr.E{"ev": "init", "track": trs[ie.track].spec.Name, "status": ie.status, "resend": false})
 	}
@@ -557,11 +561,12 @@ func (r *runner) run(idx int, sc *scenario) (res result) {
 			if !strings.HasSuffix(n, t.ext) || strings.HasPrefix(n, "init") {
 				continue
 			}
-			data, err := os.ReadFile(filepath.Join(chDir, t.spec.Name, n))
+			info, err := e.Info()
 			if err != nil {
 				continue
 			}
-			m[n] = digest(data)
+			// a file that is written again gets a new modification time (ns resolution)
+			m[n] = fmt.Sprintf("%d/%d", info.Size(), info.ModTime().UnixNano())
 		}
 		return m
 	}
@@ -627,6 +632,7 @@ func (r *runner) run(idx int, sc *scenario) (res result) {
 			trs[i].seen = now
 		}
 		file := map[string]any{"found": false, "nchanged": len(changed), "ownDir": false, "frs": []any{}}
+		res.obs = append(res.obs, [2]int64{-1, -1})
 		for _, nf := range changed {
 			if nf.track != u.track {
 				continue
@@ -651,6 +657,8 @@ func (r *runner) run(idx int, sc *scenario) (res result) {
 			}
 			file["readable"] = true
 			file["styp"] = so.Styp
+			file["verbatim"] = bytes.Equal(data, u.data) // stored byte for byte as uploaded
+			res.obs[len(res.obs)-1] = [2]int64{n, int64(so.Frags[0].Tfdt)}
 			var frs []any
 			for fi, f := range so.Frags {
 				q, rem := decomp(t, int64(f.Tfdt), t.uout)
@@ -677,7 +685,9 @@ func (r *runner) run(idx int, sc *scenario) (res result) {
 				}
 				same := fi < len(u.in.Frags) && u.in.Frags[fi].Payload == f.Payload
 				frs = append(frs, map[string]any{"mng": small(int64(f.Mfhd) - sc.G), "mnb": small(int64(f.Mfhd) - (sc.NB - int64(sc.StartNr))),
-					"q": q, "rem": rem, "pairs": pairs, "ns": f.NS, "nsIn": nsIn, "sum": small(int64(f.SumDur)), "same": same})
+					"q": q, "rem": rem, "pairs": pairs, "ns": f.NS, "nsIn": nsIn, "sum": small(int64(f.SumDur)), "same": same,
+					// traw: the stored tfdt is, tick for tick, the uploaded one
+					"traw": fi < len(u.in.Frags) && u.in.Frags[fi].Tfdt == f.Tfdt})
 			}
 			file["frs"] = frs
 			break
@@ -696,13 +706,28 @@ func (r *runner) run(idx int, sc *scenario) (res result) {
 		}
 		// input class attributes (for the classification of findings; not used by any clause):
 		// wide: the product uploaded time x timescale does not fit a signed 64-bit integer
-		maxTs := int64(t.spec.Ts)
-		if int64(sc.Tm) > maxTs {
-			maxTs = int64(sc.Tm)
+		// (the receiver converts a time to the master timescale and back: time x master timescale)
+		dtr := sc.D * int64(t.spec.Ts) / int64(sc.Tm)
+		wide := int64(in0.Tfdt)+2*dtr > (1<<63-1)/int64(sc.Tm)
+		// rescaled: the stored track counts in another timescale than the uploaded one; wideOut / durWide: the products
+		// time x stored timescale (64 bit) / sample duration x stored timescale (32 bit) do not fit
+		rescaled := t.tsOut > 0 && t.tsOut != int64(t.spec.Ts)
+		wideOut, durWide := false, false
+		if rescaled {
+			wideOut = int64(in0.Tfdt)+2*dtr > (1<<63-1)/t.tsOut
+			for _, f := range u.in.Frags {
+				for _, rn := range f.Runs {
+					if int64(rn.D)*t.tsOut >= 1<<32 {
+						durWide = true
+					}
+				}
+			}
 		}
-		wide := int64(in0.Tfdt)+2*sc.D*int64(t.spec.Ts)/int64(sc.Tm) > (1<<63-1)/maxTs
+		// fracDur: the segment duration is not a whole number of ticks of this track
+		fracDur := sc.D*int64(t.spec.Ts)%int64(sc.Tm) != 0
 		emit(tr.E{"ev": "up", "i": pos, "track": t.spec.Name, "k": u.k, "status": st, "nin": small(int64(in0.Mfhd) - sc.NB),
 			"tsIn": int64(t.spec.Ts), "nfr": len(u.in.Frags), "defdur": t.spec.DefaultDur, "wide": wide,
+			"rescaled": rescaled, "wideOut": wideOut, "durWide": durWide, "fracDur": fracDur,
 			"q": iq, "rem": irem, "dur": small(int64(u.in.totalDur())), "frs": ifr, "hook": hk, "file": file})
 
 		// manifest.mpd: reported once, when it first exists, and again whenever its content changes
@@ -754,10 +779,23 @@ func (r *runner) run(idx int, sc *scenario) (res result) {
 		if ok && res.tuned {
 			ok = sc.Pred.TS == toI64(lastHook["timeShift"])
 		}
+		if ok && sc.Pred.Abs {
+			ok = sc.Pred.SS == toI64(lastHook["seqNrShift"]) && len(sc.Pred.Stored) == len(res.obs)
+			for i := 0; ok && i < len(res.obs); i++ {
+				// the model counts in coarser ticks: times of the second track agree up to the model's roundings
+				d := int64(sc.Pred.Stored[i][2])*sc.Pred.F - res.obs[i][1]
+				tol := int64(1)
+				if sc.Pred.Stored[i][0] != 0 {
+					tol = sc.Pred.TolA
+				}
+				ok = int64(sc.Pred.Stored[i][1]) == res.obs[i][0] && d > -tol && d < tol
+			}
+		}
 		res.fidelity = 1
 		if !ok {
 			res.fidelity = -1
-			res.fidNote = fmt.Sprintf("%s: model tuned=%v ts=%d, code tuned=%v ts=%d", sc.ID, sc.Pred.Tuned, sc.Pred.TS, res.tuned, toI64(lastHook["timeShift"]))
+			res.fidNote = fmt.Sprintf("%s: model tuned=%v ts=%d ss=%d stored=%v, code tuned=%v ts=%d ss=%d stored=%v", sc.ID, sc.Pred.Tuned, sc.Pred.TS, sc.Pred.SS,
+				sc.Pred.Stored, res.tuned, toI64(lastHook["timeShift"]), toI64(lastHook["seqNrShift"]), res.obs)
 		}
 	}
 	return
